@@ -582,6 +582,8 @@ def run_atomic(cfg, prefix, trace=None):
             # executions: every execution creates its object anew and
             # frees it at the end, the arena is mapped once
             v = mk_sync(kind)
+            raw_set(kind, v, 0)         # the counter starts at 0, whatever
+            #                             the (recycled) block contained
             copies = [v] + [vctx.clone(v, pid=PID0 + i)
                             for i in range(1, n)]
 
@@ -680,20 +682,25 @@ def _item(item):
 def b_configs(tier):
     """(config, preemption bound).  Quick: bound 2, except bound 1 for the
     3-process configurations of the array / structure wrappers and of the
-    'prop' / 'ctx' spellings; thorough: bound 3 (2 for 3 processes x 2
-    rounds)."""
+    'prop' / 'ctx' spellings; thorough: bound 3, except bound 2 for 3
+    processes x 2 rounds and for the 3-process 'prop' / 'ctx' spellings on
+    the array / structure wrappers."""
     thorough = tier == 'thorough'
     out = []
     for kind in ('value', 'array', 'struct'):
         b2 = 3 if thorough else 2
-        b3 = 3 if thorough else (2 if kind == 'value' else 1)
         for scen in ('with', 'prop', 'ctx'):
-            out.append((dict(kind=kind, scenario=scen, procs=2, rounds=2), b2))
-            out.append((dict(kind=kind, scenario=scen, procs=3, rounds=1),
-                        b3 if thorough or scen == 'with' else 1))
+            main_cfg = kind == 'value' or scen == 'with'
             if thorough:
+                b3 = 3 if main_cfg else 2
+            else:
+                b3 = 2 if kind == 'value' and scen == 'with' else 1
+            out.append((dict(kind=kind, scenario=scen, procs=2, rounds=2), b2))
+            out.append((dict(kind=kind, scenario=scen, procs=3, rounds=1), b3))
+            if thorough and scen == 'with':
                 out.append((dict(kind=kind, scenario=scen, procs=3,
                                  rounds=2), 2))
+        b3 = 3 if thorough else (2 if kind == 'value' else 1)
         out.append((dict(kind=kind, scenario='bare', procs=2, rounds=1), b2))
         out.append((dict(kind=kind, scenario='bare', procs=3, rounds=1), b3))
         out.append((dict(kind=kind, scenario='reader', procs=2), b2))
@@ -1014,6 +1021,13 @@ def _main(tier, seed, only, real):
     import random
     rep = report.Report('C15', tier, seed)
     want = lambda p: only is None or p in only            # noqa: E731
+    # machinery trouble (not a verdict): reported as HARNESS-ERROR unless a
+    # real violation was found as well, which then takes precedence
+    problems = []
+    import time as _t
+    clock = _t.perf_counter            # not virtualised
+    t0 = clock()
+    phase = rep.cov['phase_s'] = {}
 
     # ---- work list of (a) and (b): one parallel map, big items first
     work = []
@@ -1047,6 +1061,7 @@ def _main(tier, seed, only, real):
         os.sched_setaffinity(0, set(par._ALLCPUS))
     except (OSError, AttributeError):
         pass
+    phase['clone_table_and_frontiers'] = round(clock() - t0, 2)
     order = list(range(len(work)))
     random.Random(seed).shuffle(order)
     order.sort(key=lambda i: work[i][0])
@@ -1054,6 +1069,7 @@ def _main(tier, seed, only, real):
         work[i][1][:4] if work[i][1][0] == 'b' else work[i][1]
         for i in order])
     results = sorted(zip(order, res), key=lambda x: x[0])
+    phase['parallel_map_a_b'] = round(clock() - t0, 2)
 
     # ---- (a)
     if want('a'):
@@ -1098,9 +1114,9 @@ def _main(tier, seed, only, real):
         rep.cov['a_work_items_with_violation'] = nviol
         recycled = sum(v for p in parts.values()
                        for k, v in p['outcomes'].items() if k[1] > 0)
-        if not rep.violations and not recycled:
-            raise HarnessFailure('no history recycled dirty storage: part '
-                                 '(a) is vacuous')
+        if not recycled:
+            problems.append('no history recycled dirty storage: part (a) is '
+                            'vacuous')
 
     # ---- (b)
     if want('b'):
@@ -1128,9 +1144,10 @@ def _main(tier, seed, only, real):
                 # a verdict must be reproducible from its choice sequence
                 again = run_atomic(cfg, ch)
                 if again.violation != msg:
-                    raise HarnessFailure(
-                        'violation not reproducible: %r vs %r'
-                        % (msg, again.violation))
+                    problems.append(
+                        'violation not reproducible: %r vs %r (%r)'
+                        % (msg, again.violation, cfg))
+                    continue
                 rep.violation('%s\nconfig=%r' % (msg, cfg),
                               dict(harness='c15', part='b', config=cfg,
                                    choices=ch))
@@ -1138,7 +1155,7 @@ def _main(tier, seed, only, real):
             st = by[name]
             rep.stats(name, st, configs=st.configs)
         if not all(lost.values()):
-            raise HarnessFailure(
+            problems.append(
                 'negative control: unlocked increments never lost an update '
                 'within the bound (%r): the exploration is vacuous' % (lost,))
         rep.cov['negative_control_lost_update_finals'] = {
@@ -1147,11 +1164,13 @@ def _main(tier, seed, only, real):
     # ---- (c)
     if real is not None:
         res, err = real.collect()
+        phase['real_processes_collected'] = round(clock() - t0, 2)
         if err:
-            raise HarnessFailure('real-process part failed: ' + err)
+            problems.append('real-process part failed: ' + err)
+        res = res or []
         errors = [r for r in res if r[2] == 'error']
         if errors:
-            raise HarnessFailure('real-process part: %r' % (errors[:3],))
+            problems.append('real-process part: %r' % (errors[:3],))
         for method, name, status, detail in res:
             if status == 'violation':
                 rep.violation('%s / type %s: %s' % (method, name, detail),
@@ -1178,6 +1197,10 @@ def _main(tier, seed, only, real):
         'real-process visibility is exhaustive over type x start method, '
         'not over schedules: both sides are sequenced by pipe messages and '
         'join')
+    if problems and not rep.violations:
+        raise HarnessFailure('\n'.join(problems))
+    if problems:
+        rep.cov['harness_problems'] = [p[:2000] for p in problems]
     return rep.finish()
 
 
